@@ -18,6 +18,9 @@ NFOREIGN = 3
 SLACK = 16          # MEGABYTE is patched to this in the harness process
 
 
+FOREIGN_NAMES = ["foreign_0", "cachefile_1_foreign.txt", "foreign_2_cachefile"]
+
+
 class Kill(BaseException):
     pass
 
@@ -45,10 +48,12 @@ class World:
         self.script = {}        # key -> (outcome kind, arg, pp)
         self.dl_log = []
         self.last_stamp = {}
+        self.delay = {}
         self.kill_at = None     # crash emulation: os._exit after this many tmp writes of the request
         self.writes = 0
         self.order_gate = None
         self.name2key = {}
+        self.foreign_seen = {}
         self.uri = {}
         for k in range(NKEYS):
             u = f"mock://res{k // 4}" + (f"<<c{k % 4}" if k % 4 else "")
@@ -107,6 +112,9 @@ class World:
                         world.dl_log.append(key)
                     kind, arg, pp = world.script[key]
                     res = key // 4
+                    if world.delay.get(key):
+                        import time as _t
+                        _t.sleep(world.delay[key])
                     assert uri == f"mock://res{res}", (uri, key)
                     if kind == "nf":
                         raise world.rr._RemoteResourceUriNotFound(uri)
@@ -197,8 +205,8 @@ class World:
                     data += b
             finally:
                 os.close(fd)
-            if name.startswith("foreign_"):
-                n = int(name.split("_")[1])
+            if name in FOREIGN_NAMES:
+                n = FOREIGN_NAMES.index(name)
                 files.append((2, n, f"x{n}:X{n}:{len(data)}"))
                 continue
             tmp = name.endswith(".part")
@@ -239,7 +247,44 @@ class World:
                     if kk in entries and os.path.exists(os.path.join(self.dir, n)))
         dls = ",".join(map(str, dl if dl is not None else []))
         return (f"out={out} dl={dls} entries={','.join(map(str, entries))} files={' '.join(files)} "
-                f"order={','.join(map(str, order))} max={self.cache.config.max_size_bytes} total={total}")
+                f"order={','.join(map(str, order))} max={self.cache.config.max_size_bytes} total={total} "
+                f"n={len(self.cache)}")
+
+    def invariant_oracles(self, info):
+        """Clauses of C18/C19 that must hold after every operation, checked on the implementation."""
+        run = self.run
+        names = os.listdir(self.dir)
+        n_files = len([n for n in names if n.startswith("cachefile_") and n.endswith("_cachefile")])
+        if len(self.cache) != n_files:
+            run.violation("number of entries differs from number of cache files",
+                          dict(info, entries=len(self.cache), files=n_files))
+        for n, (data, mt) in self.foreign_seen.items():
+            p = os.path.join(self.dir, n)
+            if not os.path.exists(p) or open(p, "rb").read() != data or os.stat(p).st_mtime != mt:
+                run.violation("foreign file modified or deleted", dict(info, name=n))
+
+    def probe_hits(self, info):
+        """Failing-input search after a disagreement: request every key the cache claims to hold and
+        check that what is served is complete and of the right resource."""
+        run = self.run
+        for k in range(NKEYS):
+            try:
+                if not self.cache.in_cache(self.uri[k])[0]:
+                    continue
+                self.script = {k: ("rb", 0, False)}      # a download attempt would raise
+                self.dl_log = []
+                with warnings.catch_warnings():
+                    warnings.simplefilter("ignore")
+                    paths = self.cache[self.uri[k]]
+                for p in paths:
+                    data = open(p, "rb").read() if os.path.exists(p) else None
+                    tag = self._content_tag(data, k, None) if data is not None else "missing"
+                    if not tag.startswith(f"F{k // 4}p"):
+                        run.violation("a partial, unprocessed or missing file is served as a cache hit",
+                                      dict(info, key=k, path=p, content=tag))
+            except Exception as e:
+                run.violation("serving a key the cache claims to hold raised",
+                              dict(info, key=k, error=repr(e)))
 
     @staticmethod
     def canon_model(line):
@@ -284,7 +329,7 @@ def do_get(world, reqs, oracle=True):
     before_files = {n: open(os.path.join(world.dir, n), "rb").read() if False else None
                     for n in ()}
     foreign_before = {n: (open(os.path.join(world.dir, n), "rb").read(), os.stat(os.path.join(world.dir, n)).st_mtime)
-                      for n in os.listdir(world.dir) if n.startswith("foreign_")}
+                      for n in os.listdir(world.dir) if n in FOREIGN_NAMES}
     world.script = {r["key"]: (r["kind"], r["arg"], r["pp"]) for r in reqs}
     world.dl_log = []
     world.last_stamp = {}
@@ -301,10 +346,18 @@ def do_get(world, reqs, oracle=True):
             paths = None
             out = "raise-notfound"
         except (IOError, RuntimeError) as e:
-            if "mock:" not in str(e):
-                raise
             paths = None
-            out = "raise-io"
+            if "mock:" not in str(e):
+                out = "raise-" + type(e).__name__
+                run.violation("request raised an exception that no resource fault explains",
+                              dict(uris=uris, error=repr(e)))
+            else:
+                out = "raise-io"
+        except Exception as e:
+            paths = None
+            out = "raise-" + type(e).__name__
+            run.violation("request raised an exception that no resource fault explains",
+                          dict(uris=uris, error=repr(e)))
     started = list(world.dl_log)
     # completion order: by the stamp of the last write of each worker (start order for the rest)
     dl = sorted(started, key=lambda k: (world.last_stamp.get(k, 0), started.index(k)))
@@ -365,16 +418,27 @@ def simple_op(world, op):
     kind = op[0]
     out = "none"
     if kind == "remove":
-        c.remove(world.uri[op[1]])
         line = f"cache remove {op[1]}"
+        try:
+            c.remove(world.uri[op[1]])
+        except Exception as e:
+            out = "raise-" + type(e).__name__
+            world.run.violation("remove() raised", dict(line=line, error=repr(e)))
     elif kind == "purge":
-        c.purge()
         line = "cache purge"
+        try:
+            c.purge()
+        except Exception as e:
+            out = "raise-" + type(e).__name__
+            world.run.violation("purge() raised", dict(line=line, error=repr(e)))
     elif kind == "reopen":
         line = f"cache reopen {1 if op[1] else 0}"
         try:
             world.cache = world._open(op[2], op[1])
-        except ValueError:
+        except ValueError as e:
+            if "exceeds the maximum cache size" not in str(e):
+                world.run.violation("opening the cache directory raised", dict(line=line, error=repr(e)))
+                raise
             # no live cache object: the model must report too-big as well; then reopen with eviction
             m1 = world.drv.ask(line)
             world.cache = world._open(op[2], True)
@@ -388,10 +452,11 @@ def simple_op(world, op):
             world.stamp(p)
         line = f"cache touch {op[1]}"
     elif kind == "foreign":
-        p = os.path.join(world.dir, f"foreign_{op[1]}")
+        p = os.path.join(world.dir, FOREIGN_NAMES[op[1]])
         with open(p, "wb") as fh:
             fh.write(b"x" * op[2])
         world.stamp(p)
+        world.foreign_seen[FOREIGN_NAMES[op[1]]] = (b"x" * op[2], os.stat(p).st_mtime)
         line = f"cache foreign {op[1]} {op[2]}"
     else:
         raise ValueError(op)
